@@ -385,7 +385,10 @@ impl<K: CacheKey + 'static> MemoryCache<K> {
         for key in expired_keys {
             #[cfg(feature = "verif-hooks")]
             crate::verif_hooks::sched_point("memory.evict_expired.before_remove");
-            if let Some((_, entry)) = self.storage.remove(&key) {
+            // Remove the entry only if it is still expired: a concurrent put may
+            // have replaced it with a fresh value since the keys were collected
+            // (see `get`), and this policy never evicts live entries.
+            if let Some((_, entry)) = self.storage.remove_if(&key, |_, e| e.is_expired()) {
                 self.entry_count.fetch_sub(1, Ordering::Relaxed);
                 self.memory_usage
                     .fetch_sub(entry.size_bytes as u64, Ordering::Relaxed);
